@@ -31,6 +31,25 @@ class Obligation:
         self.model = None
 
 
+def _skolemize(g):
+    """forall q. P(q) as a goal  ->  P(q0) for a fresh constant q0 (equivalent for validity)."""
+    if z3.is_quantifier(g) and g.is_forall() and g.num_vars() == 1 and g.var_sort(0) == z3.IntSort():
+        q0 = z3.Int(sym.fresh_name("sk." + g.var_name(0).split("!")[0]))
+        return z3.substitute_vars(g.body(), q0), [q0]
+    if z3.is_implies(g):
+        a, b = g.children()
+        b2, qs = _skolemize(b)
+        return (z3.Implies(a, b2), qs) if qs else (g, [])
+    if z3.is_and(g):
+        parts, qs = [], []
+        for c in g.children():
+            c2, q = _skolemize(c)
+            parts.append(c2)
+            qs.extend(q)
+        return (z3.And(*parts), qs) if qs else (g, [])
+    return g, []
+
+
 class Engine(ExprMixin, CallMixin, ContractMixin, BuiltinMixin, StmtMixin, LoopMixin, CompMixin):
     def __init__(self, reg=None, repo=None, ext_exc=None, feas_timeout_ms=300, max_steps=200000):
         self.reg = reg or REG
@@ -55,6 +74,8 @@ class Engine(ExprMixin, CallMixin, ContractMixin, BuiltinMixin, StmtMixin, LoopM
         self.paths = 0
         self.covers = {}  # cover points reached (vacuity guard)
         self.feas_checks = 0
+        self.param_syms = {}  # parameter name -> SV at entry (for countermodel concretisation)
+        self.canaries = []  # (pc) of every normally returning path: `ensures False` must be refutable
 
     # ------------------------------------------------------------------
     def note_module(self, mod):
@@ -73,7 +94,16 @@ class Engine(ExprMixin, CallMixin, ContractMixin, BuiltinMixin, StmtMixin, LoopM
             return
         g = sym.lsimp(goal)
         oid = f"{self.root_spec.target}:{kind}[{label}]"
-        ob = Obligation(oid, kind, label, list(st.pc), g, getattr(node, "lineno", 0), list(st.trace))
+        pc = list(st.pc)
+        g, skolems = _skolemize(g)
+        if skolems:
+            # engine-side instantiation: every universally quantified fact of the path condition is
+            # instantiated at the skolem constants of the goal (valid instances; the facts stay too)
+            for h in list(pc):
+                if z3.is_quantifier(h) and h.is_forall() and h.num_vars() == 1 and h.var_sort(0) == z3.IntSort():
+                    for q in skolems:
+                        pc.append(z3.substitute_vars(h.body(), q))
+        ob = Obligation(oid, kind, label, pc, g, getattr(node, "lineno", 0), list(st.trace))
         if z3.is_true(g):
             ob.status, ob.backend = "unsat", "simplify"
         self.obligations.append(ob)
@@ -142,12 +172,13 @@ class Engine(ExprMixin, CallMixin, ContractMixin, BuiltinMixin, StmtMixin, LoopM
             if t is None:
                 raise EngineError(f"parameter {p.arg} of {target} has no usable type (add types= to the contract)")
             st.store[p.arg] = self.symbolic_param(st, p.arg, t)
+            self.param_syms[p.arg] = st.store[p.arg]
         for gname, gtype in fs.ghost.items():
             st.store[gname] = self.symbolic_param(st, gname, self.parse_type_str(gtype, mod))
         self.entry_alloc = alloc0
         # requires
         for clause in fs.requires:
-            st.assume_raw(self.spec_bool(clause, st))
+            st.assume_raw(self.spec_assume(clause, st))
         if not self.feasible(st):
             self.note_undecided("requires", "precondition is unsatisfiable (vacuous contract)")
         entry = st.copy()
@@ -190,6 +221,7 @@ class Engine(ExprMixin, CallMixin, ContractMixin, BuiltinMixin, StmtMixin, LoopM
         if fr.is_generator:
             value = st.store.get("_yielded") or SV(TList(None), None)
         self.covers["return"] = True
+        self.canaries.append(list(st.pc))
         rt = fr.ret_type
         if rt is not None and value is not None:
             try:
